@@ -4,6 +4,7 @@ mod journal;
 mod model;
 mod props;
 mod refcodec;
+mod shadow;
 mod shim;
 mod store;
 mod trace;
@@ -54,6 +55,20 @@ const METAS: &[PropMeta] = &[
         assumptions: &["harness types (u64 pairs, String); other Types instantiations not exercised", "reference codec written from the format description"],
         min_distinct: 100,
     },
+    PropMeta {
+        id: "C04",
+        level: "fault_enumeration",
+        rule: "scheduled histories (tiny chunks, many flushes with and without callback, several flushes queued behind a parked worker, flushes right before/after rotations) in which the worker is stepped through its write/fdatasync/unlink calls by a seeded schedule, with fault plans: none / one failing fdatasync / two or three consecutive failing fdatasyncs / one failing, short or partial write / sync failure + short write. The recorded trace is replayed into a shadow file system (durable = snapshot at the last successful sync); at every Ack(Ok) event every byte journalled before that flush call must be durable in its chunk file; plus at-most-once, exactly-once without faults, callback order = call order, no Err without fault. Non-trivial = run with >=1 callback; distinct = distinct (thread, syscall kind, file) interleavings of the trace.",
+        assumptions: &["a failed fdatasync leaves durable state unchanged; a later successful fdatasync of the same file makes everything written to it durable", "journal end at the flush call is taken from stat().open_chunk.global_end (cross-checked byte-exactly by C11)"],
+        min_distinct: 20,
+    },
+    PropMeta {
+        id: "C08",
+        level: "fault_enumeration",
+        rule: "purge-heavy scheduled histories (chunk_max_records 1-6, purges inside the log / at last / beyond last, purge records that land in a chunk deleted later, flushes queued behind a parked worker, optional restarts) with fault plans none / one or two failing fdatasyncs / failing write. Offline over the trace + shadow FS, at every successful unlink of a chunk file: (a) it is the oldest chunk present; (d) no entry stored in it is live in the reference log at the scheduling flush; (b) the durable bytes of the remaining files below that flush's journal end are complete, abut, start with a snapshot, and replaying them leaves no index in (purged,last] without its entry. End state (no fault): no closed chunk older than the last purge's chunk holds nothing above the purge point; the directory replays gap-free. Non-trivial = run with >=1 unlink; distinct = distinct interleavings.",
+        assumptions: &["creating/unlinking directory entries is durable when the call returns", "'holding nothing above the purge point' is read by log id (a chunk kept only for truncated entries with larger ids is not an alarm)", "an unlink is attributed to the first flush call at which the file was on disk but no longer listed by stat()"],
+        min_distinct: 20,
+    },
 ];
 
 fn meta(prop: &str) -> Option<&'static PropMeta> {
@@ -64,6 +79,8 @@ fn run_shard(ctx: &mut Ctx) {
     match ctx.prop.as_str() {
         "C01" | "C02" | "C06" | "C11" | "C16" => props::seq::run_shard(ctx),
         "C12" => props::codec::run_shard(ctx),
+        "C04" => props::c04::run_shard(ctx),
+        "C08" => props::c08::run_shard(ctx),
         p => ctx.out.inconclusive.push(format!("no engine for {}", p)),
     }
 }
@@ -193,6 +210,8 @@ fn cmd_replay(args: &[String]) -> i32 {
     let res = match rp["kind"].as_str().unwrap_or("") {
         "seq" => props::seq::replay(rp),
         "codec" => props::codec::replay(rp),
+        "c04" => props::c04::replay(rp),
+        "c08" => props::c08::replay(rp),
         k => {
             eprintln!("unknown replay kind {}", k);
             return 2;
